@@ -251,7 +251,7 @@ def run_check(pid, tier, seed, replay=None):
 
     wall = time.time() - t0
     verdict = 'violated' if real else ('inconclusive' if inconclusive else 'held')
-    if not replay:
+    if not replay and not os.environ.get('VERIF_NO_EVIDENCE'):
         write_evidence(pid, mod, tier, seed, agg, wall, verdict, len(real) + (unattributed if real else 0),
                        list(known_seen), inconclusive)
     for l in lines:
